@@ -62,7 +62,7 @@ def run(ctx):
             c1.update({"lens": [c1["W"] + 40 + 7 * j], "beta": [5.0, 25.0][j], "limit": 3})
             cfgs.append(c1)
         c2 = tu.gen_config(ctx.rng, joint=True)
-        c2.update({"beta": 5.0, "limit": 2, "K": 2})
+        c2.update({"beta": 5.0, "limit": 2, "K": 2, "W": max(2, c2["W"])})      # (with W = 1 every split stacks alike)
         c2["lens"] = [c2["W"] + 12, c2["W"] + 33]
         cfgs.append(c2)
         cfgs.append(dict(c2, lens=[c2["W"] + 33, c2["W"] + 12], data_seed=c2["data_seed"] + 1))
